@@ -1,8 +1,10 @@
 package props
 
 import (
+	"bytes"
 	"fmt"
 	"io"
+	"strings"
 
 	"verif/mc/engine"
 	"verif/mc/model"
@@ -110,6 +112,34 @@ func c18Families(tier string) []engine.Family {
 				stream = stream[:len(stream)-t]
 			}
 			c18Body(x, cd, stream, bufs)
+		}})
+	}
+	// long items: strings and field names whose LENGTH BYTE equals a structural marker of the format ('}' = 125, ']' = 93,
+	// 0xff = the CBOR break), longer than the small buffers, followed by a second value; read sizes: at most 2 short reads
+	long := map[*Codec][][]byte{
+		codecUBJSON: {cat2([]byte{'{', 'U', 125}, bytes.Repeat([]byte{'k'}, 125), []byte{'i', 1, '}'}), cat2([]byte{'{', 'i', 125}, bytes.Repeat([]byte{'k'}, 125), []byte{'T', '}'}),
+			cat2([]byte{'[', 'S', 'U', 93}, bytes.Repeat([]byte{'s'}, 93), []byte{']'}), cat2([]byte{'S', 'i', 78}, bytes.Repeat([]byte{'N'}, 78)),
+			cat2([]byte{'{', '#', 'i', 1, 'U', 35}, bytes.Repeat([]byte{'#'}, 35), []byte{'S', 'U', 36}, bytes.Repeat([]byte{'$'}, 36))},
+		codecCBOR: {cat2([]byte{0x78, 0xff}, bytes.Repeat([]byte{'t'}, 255)), cat2([]byte{0xbf, 0x78, 0xff}, bytes.Repeat([]byte{0xff}, 255), []byte{0x01, 0xff}),
+			cat2([]byte{0x9f, 0x58, 0xff}, bytes.Repeat([]byte{0xff}, 255), []byte{0xff}), cat2([]byte{0xa1, 0x78, 0x9f}, bytes.Repeat([]byte{0x9f}, 0x9f), []byte{0x80})},
+		codecJSON: {[]byte(`"` + strings.Repeat("x", 70) + `"`), []byte(`{"` + strings.Repeat(`\"`, 40) + `":[1]}`), []byte(`["` + strings.Repeat("]", 66) + `",2]`), []byte(`[` + strings.Repeat("1234567890", 7) + `.5]`)},
+	}
+	for _, cd := range codecs {
+		cd := cd
+		items := long[cd]
+		small := c18Corpus[cd]
+		fams = append(fams, engine.Family{Name: "long-items-" + cd.Name, Arity: []int{len(items), 3}, Dev: 2, Body: func(x *engine.Exec) {
+			stream := append([]byte{}, items[x.Choose(len(items))]...)
+			switch x.Choose(3) {
+			case 1: // followed by a small value
+				if cd == codecJSON {
+					stream = append(stream, ' ')
+				}
+				stream = append(stream, small[x.Choose(4)]...)
+			case 2: // cut inside the long item
+				stream = stream[:len(stream)-[]int{1, 2, 40}[x.Choose(3)]]
+			}
+			c18Body(x, cd, stream, []int{2, 7, 64})
 		}})
 	}
 	return fams
